@@ -97,7 +97,15 @@ func (c Case) history() (play.History, []string) {
 				vals = append(vals, &b)
 			}
 		}
-		h.Msgs = append(h.Msgs, script.CMsg{K: "B", Portal: fmt.Sprintf("o%d", i), Name: "s", PFmts: fm, Params: vals, RFmts: c.RFmts})
+		// (complementary result formats: every portal keeps the formats of its own Bind)
+		var orf []int16
+		for _, f := range c.RFmts {
+			orf = append(orf, 1-f)
+		}
+		if len(orf) == 0 && i%2 == 0 {
+			orf = []int16{1}
+		}
+		h.Msgs = append(h.Msgs, script.CMsg{K: "B", Portal: fmt.Sprintf("o%d", i), Name: "s", PFmts: fm, Params: vals, RFmts: orf})
 	}
 	h.Msgs = append(h.Msgs, script.CMsg{K: "D", Kind: 'P', Portal: "p"}, script.CMsg{K: "E", Portal: "p"})
 	for i := range c.Others {
